@@ -101,6 +101,9 @@ func VipRuleConfLoad(filename string) (VipConf, error) {
 	vipConf.VipMap = make(Vip2Product)
 	for product, viplist := range config.Vips {
 		for _, vip := range viplist {
+			if other, ok := vipConf.VipMap[vip]; ok && other != product {
+				return vipConf, fmt.Errorf("vip %s belongs to more than one product", vip)
+			}
 			vipConf.VipMap[vip] = product
 		}
 	}
